@@ -348,6 +348,11 @@ impl SetSpeedTrainSim {
             self.speed_trace.speed[self.state.i] >= si::Velocity::ZERO,
             format_dbg!(self.speed_trace.speed[self.state.i] >= si::Velocity::ZERO)
         );
+        // the previous sample enters the mean speed of this step (this also covers the first sample)
+        ensure!(
+            self.speed_trace.speed[self.state.i - 1] >= si::Velocity::ZERO,
+            format_dbg!(self.speed_trace.speed[self.state.i - 1] >= si::Velocity::ZERO)
+        );
         // set the catenary power limit.  I'm assuming it is 0 at this point.
         self.loco_con
             .set_cat_power_limit(&self.path_tpc, self.state.offset);
